@@ -277,6 +277,33 @@ theorem same_sign_same_branch (p : Params) (z₁ z₂ : ℚ) (hs : 0 ≤ z₁ * 
   have h2 : |z₂| ≤ |z₁ + z₂| := sq_le_sq.mp (by nlinarith [sq_nonneg z₁])
   exact ⟨key z₁ h1, key z₂ h2⟩
 
+/-! ## the executable model's exact phases are the phases of these transfer functions -/
+
+/-- The rational phase (in turns) the model reports for a Fresnel sub-sample is the phase of `fresnelD` at
+`k = 2π n/λ`, `k⊥ = 2π ν`:  `D = exp(2πi · fresnelTurns)`. -/
+theorem model_fresnelTurns (p : Params) (νx νy : ℚ) (hn : p.n ≠ 0) (hl : p.lam ≠ 0) :
+    fresnelD (2 * Real.pi * (p.n : ℝ) / (p.lam : ℝ)) (p.z : ℝ) (2 * Real.pi * (νx : ℝ)) (2 * Real.pi * (νy : ℝ))
+      = cexp (((2 * Real.pi * ((fresnelTurns p νx νy : ℚ) : ℝ) : ℝ) : ℂ) * I) := by
+  unfold fresnelD fresnelTurns
+  rw [← Complex.exp_add, ← add_mul, ← Complex.ofReal_add]
+  congr 3
+  have hn' : (p.n : ℝ) ≠ 0 := by exact_mod_cast hn
+  have hl' : (p.lam : ℝ) ≠ 0 := by exact_mod_cast hl
+  have hpi := Real.pi_ne_zero
+  push_cast
+  field_simp
+  ring
+
+/-- The model's radicand is `(k² - |k⊥|²)/(2π)²`: its sign decides "evanescent" exactly as `kz` does. -/
+theorem model_radicand (p : Params) (νx νy : ℚ) (hl : p.lam ≠ 0) :
+    (2 * Real.pi * (p.n : ℝ) / (p.lam : ℝ)) ^ 2
+        - ((2 * Real.pi * (νx : ℝ)) ^ 2 + (2 * Real.pi * (νy : ℝ)) ^ 2)
+      = (2 * Real.pi) ^ 2 * ((radicand p νx νy : ℚ) : ℝ) := by
+  unfold radicand
+  have hl' : (p.lam : ℝ) ≠ 0 := by exact_mod_cast hl
+  push_cast
+  field_simp
+
 /-! ## the hypotheses are satisfiable -/
 
 /-- A `FourierPair` exists on every index type (the identity with `c = 1`), so none of the theorems
